@@ -358,3 +358,70 @@ fn shorten(a: &str, b: &str) -> String {
     }
     format!("...{}", a[st..].chars().take(300).collect::<String>())
 }
+
+// ------------------------------------------------------------------------------------------------
+// Per-case process isolation (VERIF_ISOLATE=1): every case is evaluated by a child process of the same
+// binary, so that memory corruption in the code under test kills the child, not the check; a child
+// that dies while evaluating a case is a violation ("crash") of the property being checked.
+
+thread_local! {
+    static ISO: RefCell<Option<Proc>> = const { RefCell::new(None) };
+}
+
+pub fn isolate_enabled() -> bool {
+    std::env::var("VERIF_ISOLATE").ok().as_deref() == Some("1")
+}
+
+/// Evaluates the case in this worker's child process (same binary, `child` mode).
+pub fn judge_isolated(prop: &str, engine: &str, case: &Case) -> Outcome {
+    let req = format!("J {} {} {}", prop, engine, case.to_line());
+    let ans = ISO.with(|p| {
+        let mut p = p.borrow_mut();
+        if p.is_none() {
+            let exe = std::env::current_exe().unwrap_or_else(|_| "vharness".into());
+            *p = Some(Proc { path: exe, child: None });
+        }
+        p.as_mut().expect("proc").ask(&req)
+    });
+    let kind = crate::oracle::kind_class(case.kind).to_string();
+    if ans.starts_with("ABORT") {
+        return Outcome {
+            verdict: Err(Violation {
+                what: "crash",
+                detail: format!("the process executing this case died ({}): memory corruption or an abort inside the code under test", ans),
+            }),
+            sig_ctx: kind,
+            nontrivial: false,
+            classes: vec!["crash"],
+            inconclusive: false,
+            evals: 1,
+            dfs: None,
+            witness: None,
+        };
+    }
+    match parse_verdict(&ans, "isolated") {
+        Ok((nt, cl)) => Outcome {
+            verdict: Ok(()),
+            sig_ctx: kind,
+            nontrivial: nt,
+            classes: cl,
+            inconclusive: false,
+            evals: 1,
+            dfs: None,
+            witness: None,
+        },
+        Err((v, ctx)) => {
+            let trouble = v.what == "twin-error";
+            Outcome {
+                verdict: if trouble { Ok(()) } else { Err(Violation { what: v.what, detail: v.detail.replacen("[isolated build] ", "", 1) }) },
+                sig_ctx: if ctx.is_empty() { kind } else { ctx },
+                nontrivial: false,
+                classes: vec![],
+                inconclusive: trouble,
+                evals: 1,
+                dfs: None,
+                witness: None,
+            }
+        }
+    }
+}
